@@ -132,11 +132,15 @@ def _claimed_convergence(ck, mini, what):
         raise vh.SkipCase(f"{what}: minimiser stopped before its own gradient tolerance")
 
 
-def _cmp_mean(ck, key, what, got, mean, hit):
+def _cmp_mean(ck, key, what, got, mean, hit, atol=0.0):
+    """atol: absolute slack implied by the criterion an iterative minimiser claims — a gradient
+    norm <= g_tol at the returned point bounds the distance to the minimum by g_tol/lambda_min and
+    the posterior precision 1 + R^T N^-1 R has lambda_min >= 1"""
     ck.hit(hit)
     sc = max(np.max(np.abs(mean)), 1e-3)
-    dev = float(np.max(np.abs(np.asarray(got) - mean)) / sc)
-    if not dev <= TOL_MEAN:
+    adev = float(np.max(np.abs(np.asarray(got) - mean)))
+    dev = adev / sc
+    if not adev <= TOL_MEAN * sc + atol:
         ck.violation(key, what, reldev=dev, got=vh.small(got, 10), expected=vh.small(mean, 10))
 
 
@@ -235,7 +239,7 @@ def case_cl(ck, rng, fam, m, mir, D, mean, x0, seed, desc, nontriv):
         _claimed_convergence(ck, minis[-1], mini_kind)
         _cmp_mean(ck, f"mean-mismatch:cl:optimize_kl:map:{mini_kind}",
                   "classic optimize_kl MAP result differs from the exact posterior mean", got, mean,
-                  "cl_map_mean")
+                  "cl_map_mean", atol=3e-9)
         it = [vh.cl_vec(mir, f) for f in sl.local_iterator()]
         if len(it) != 1 or not np.array_equal(it[0], got):
             ck.violation("map-sample-list:cl:optimize_kl", "MAP sample list is not the single final "
@@ -267,7 +271,7 @@ def case_cl(ck, rng, fam, m, mir, D, mean, x0, seed, desc, nontriv):
         _claimed_convergence(ck, mm, mini_kind)
         _cmp_mean(ck, f"mean-mismatch:cl:optimize_kl:mgvi:{mini_kind}",
                   "classic optimize_kl MGVI mean (mirrored samples, full convergence) differs from the "
-                  "exact posterior mean", got, mean, "cl_mgvi_mean")
+                  "exact posterior mean", got, mean, "cl_mgvi_mean", atol=3e-9)
     if np.max(np.abs(off)) > 1e-12:
         ck.violation("offset-nonzero:cl:optimize_kl", "zero white noise gives a non-zero residual",
                      offset=vh.small(off, 15))
